@@ -961,6 +961,22 @@ func c20r6(c *core.Ctx) {
 			}
 		}
 	})
+	// the code enters the payload whole: it is parsed at a width that holds every eight-digit code (99 999 999 < 2^27; the field has 27
+	// bits although the comment in the function says 26) — parsed narrower, ParseUint answers with a range error for a third of the codes
+	// ValidatePin accepts, and the accessory has no setup URI
+	core.Instrs(f, func(i ssa.Instruction) {
+		if !(core.IsCall(i, "strconv.ParseUint") || core.IsCall(i, "strconv.ParseInt")) {
+			return
+		}
+		a := core.Args(i)
+		if len(a) != 3 {
+			return
+		}
+		bits, isK := core.ConstInt(a[2])
+		base, isB := core.ConstInt(a[1])
+		c.Check(isK && isB && base == 10 && (bits == 0 || bits >= 27), "pin-parsed-whole@"+fname(f), posOf(i), "the code is parsed in base 10 at a width of at least 27 bits",
+			fmt.Sprintf("the setup code is parsed with base %d at %d bits: eight decimal digits need 27 (10^8 > 2^26) — codes ValidatePin accepts are refused here and the accessory has no setup URI", base, bits))
+	})
 	c.Check(msbFirst, "base36-order@"+fname(f), f.Pos(), "digits are stored most significant first", "the base-36 digits are not stored most significant first: the URI encodes another payload")
 	c.Check(nine && div36 && prefix, "base36-digits@"+fname(f), f.Pos(), "nine base-36 digits after X-HM://, setup id appended", "the payload is not rendered as nine base-36 digits after X-HM://")
 	// Config.XHMURI passes pin, setup id and category of the same config
